@@ -201,14 +201,20 @@ pub fn run(ctx: &Ctx) -> Report {
     rep.floor("Lru growths", growths, 1);
     rep.floor("Lru overwrites of a different key", over, 1);
     rep.bound("lru", json!({"capacities": [0, 1, 2], "keys": 4, "hash_range": range, "hash_maps": maps.len(), "values": 2}));
-    // (b)
-    let mut b = crate::props::bddsweep::run_all(ctx);
+    // (b) and (c) run side by side (quick tier); sequentially in thorough (memory)
+    let (mut b, mut c) = if ctx.tier == crate::core::Tier::Quick {
+        std::thread::scope(|s| {
+            let hb = s.spawn(|| crate::props::bddsweep::run_all(ctx));
+            let hc = s.spawn(|| crate::props::sddsweep::run_all(ctx, false));
+            (hb.join().expect("bdd sweep"), hc.join().expect("sdd sweep"))
+        })
+    } else {
+        (crate::props::bddsweep::run_all(ctx), crate::props::sddsweep::run_all(ctx, false))
+    };
     crate::props::bddsweep::filter_for(&mut b, "C16");
     b.rule = String::new();
     rep.add_extra("bdd_lockstep_operations", b.transitions);
     rep.merge(b);
-    // (c)
-    let mut c = crate::props::sddsweep::run_all(ctx, false);
     crate::props::sddsweep::filter_for(&mut c, "C16");
     c.rule = String::new();
     let cold = c.extra.get("cold_builder_comparisons").and_then(|v| v.as_u64()).unwrap_or(0);
